@@ -218,6 +218,13 @@ typedef struct node_t {
   size_t failtoklen[16];
   int nfailtok;
   int reenter; /* callbacks re-enter the API */
+  /* `chain`: a handler invoked for token trig submits a new request on the same session */
+  struct {
+    uint8_t trig[16], tok[16];
+    size_t triglen, toklen;
+    int type, used;
+  } chain[32];
+  int nchain;
   coap_session_t *held[64]; /* server sessions the application holds a reference to */
   int nheld;
   /* parameters applied to every new server session (0 = library default) */
@@ -638,6 +645,41 @@ hnd_generic(coap_resource_t *resource, coap_session_t *session, const coap_pdu_t
   }
 }
 
+/* the application reacts to an outcome from inside the handler, as clients commonly do:
+ * one new request (GET /a) on the session the handler was called for */
+static void
+run_chain(node_t *nd, coap_session_t *session, const uint8_t *t, size_t tl, const char *from) {
+  int i;
+  for (i = 0; i < nd->nchain; i++) {
+    coap_pdu_t *pdu;
+    coap_mid_t mid;
+    int ok = 1;
+    if (nd->chain[i].used || nd->chain[i].triglen != tl || memcmp(nd->chain[i].trig, t, tl))
+      continue;
+    nd->chain[i].used = 1;
+    pdu = coap_new_pdu((coap_pdu_type_t)nd->chain[i].type, COAP_REQUEST_CODE_GET, session);
+    if (!pdu)
+      return;
+    ok &= coap_add_token(pdu, nd->chain[i].toklen, nd->chain[i].tok);
+    ok &= coap_add_option(pdu, COAP_OPTION_URI_PATH, 1, (const uint8_t *)"a") != 0;
+    ev_begin("sending");
+    ev_int("sess", sess_id(session));
+    ev_int("pmid", coap_pdu_get_mid(pdu));
+    ev_int("built", ok);
+    ev_hex("tok", nd->chain[i].tok, nd->chain[i].toklen);
+    ev_str("chained", from);
+    ev_end();
+    mid = coap_send(session, pdu);
+    ev_begin("sent");
+    ev_int("sess", sess_id(session));
+    ev_int("mid", mid);
+    ev_hex("tok", nd->chain[i].tok, nd->chain[i].toklen);
+    ev_str("chained", from);
+    ev_end();
+    return;
+  }
+}
+
 static coap_response_t
 hnd_response(coap_session_t *session, const coap_pdu_t *sent, const coap_pdu_t *received,
              const coap_mid_t mid) {
@@ -661,6 +703,8 @@ hnd_response(coap_session_t *session, const coap_pdu_t *sent, const coap_pdu_t *
       fail = 1;
   ev_int("verdict", fail ? 0 : 1);
   ev_end();
+  if (nd->nchain)
+    run_chain(nd, session, tok.s, tok.length, "rsp");
   vf_cur_node = save;
   return fail ? COAP_RESPONSE_FAIL : COAP_RESPONSE_OK;
 }
@@ -683,6 +727,11 @@ hnd_nack(coap_session_t *session, const coap_pdu_t *sent, const coap_nack_reason
     ev_int("code", coap_pdu_get_code(sent));
   }
   ev_end();
+  if (sent && nodes[n].nchain &&
+      (reason == COAP_NACK_RST || reason == COAP_NACK_TOO_MANY_RETRIES)) {
+    coap_bin_const_t st = coap_pdu_get_token(sent);
+    run_chain(&nodes[n], session, st.s, st.length, "nack");
+  }
   vf_cur_node = save;
 }
 
@@ -1426,6 +1475,7 @@ cmd_send(void) {
   ev_int("sess", atol(tok[2]));
   ev_int("pmid", coap_pdu_get_mid(pdu));
   ev_int("built", ok);
+  ev_hex("tok", coap_pdu_get_token(pdu).s, coap_pdu_get_token(pdu).length);
   ev_end();
   mid = coap_send(s, pdu);
   ev_begin("sent");
@@ -1957,6 +2007,24 @@ run_command(void) {
     ev_end();
   } else if (!strcmp(c, "failsend"))
     vf_send_fail_countdown = atoi(tok[1]);
+  else if (!strcmp(c, "chain")) {
+    /* chain <n> <trigger tokhex> <new tokhex> [type=0] */
+    node_t *nd = &nodes[atoi(tok[1])];
+    size_t al, bl;
+    uint8_t *a = vf_unhex(tok[2], strlen(tok[2]), &al);
+    uint8_t *b = vf_unhex(tok[3], strlen(tok[3]), &bl);
+    if (nd->nchain < 32 && al <= 16 && bl <= 16) {
+      memcpy(nd->chain[nd->nchain].trig, a, al);
+      nd->chain[nd->nchain].triglen = al;
+      memcpy(nd->chain[nd->nchain].tok, b, bl);
+      nd->chain[nd->nchain].toklen = bl;
+      nd->chain[nd->nchain].type = kvi("type", 0);
+      nd->chain[nd->nchain].used = 0;
+      nd->nchain++;
+    }
+    free(a);
+    free(b);
+  }
   else if (!strcmp(c, "verdict")) {
     /* verdict <n> <tokhex>  : response handler returns FAIL for this token */
     node_t *nd = &nodes[atoi(tok[1])];
